@@ -461,6 +461,20 @@ func (c *Ctx) accumulatorOK(fn *ssa.Function, acc ssa.Value, store *ssa.Call) (b
 			if !takes || pc == call {
 				continue
 			}
+			if pc == store {
+				// the store is a repository helper that packs the children it is given and stores the result
+				for k, a := range pc.Call.Args {
+					if a == children || (strings.HasPrefix(c.varPath(a, 0), "var:") && c.varPath(a, 0) == c.varPath(children, 0)) {
+						if pk := c.packStoreHelper(pc.Call.StaticCallee(), k, 0); pk != nil {
+							if c.packerUsesField(pk, field) {
+								return true, fmt.Sprintf("size = Σ %s over the children that %s links (inside %s) with that very %s + byte count of the store", field.Name(), pk.Name(), pc.Call.StaticCallee().Name(), field.Name())
+							}
+							return false, pk.Name() + " does not write each child's " + field.Name() + " as its link size"
+						}
+					}
+				}
+				continue
+			}
 			node := extractOf(pc, 0)
 			feeds := false
 			for _, a := range store.Call.Args {
@@ -490,6 +504,8 @@ func (c *Ctx) accumulatorOK(fn *ssa.Function, acc ssa.Value, store *ssa.Call) (b
 	// sizes written into links in this function: size args of entry-constructor calls, and Tsize of nodes assigned as links
 	linkSizes := map[ssa.Value]bool{}
 	assigned := map[ssa.Value]bool{}
+	assignAt := map[ssa.Value][]*ssa.BasicBlock{} // base of an assigned existing link -> blocks of its AssignNode calls
+	addAt := map[ssa.Value]*ssa.BasicBlock{}      // base of a Tsize addend -> block of the addition
 	for _, ci := range core.CallsIn(fn) {
 		if f := ci.Common().StaticCallee(); isEntryCtor(f) {
 			linkSizes[core.Unconv(ci.Common().Args[1])] = true
@@ -510,8 +526,20 @@ func (c *Ctx) accumulatorOK(fn *ssa.Function, acc ssa.Value, store *ssa.Call) (b
 					built = true
 				}
 			}
+			// a link built by a repository helper that returns the link together with the size it wrote into it
+			if ex, isEx := arg.(*ssa.Extract); isEx {
+				if hc, isCall := ex.Tuple.(*ssa.Call); isCall {
+					if li, si, ok := c.linkSizeHelper(hc.Call.StaticCallee()); ok && li == ex.Index {
+						if sv := extractOf(hc, si); sv != nil {
+							linkSizes[sv] = true
+							built = true
+						}
+					}
+				}
+			}
 			if !built {
 				assigned[c.baseOf(arg, 0)] = true
+				assignAt[c.baseOf(arg, 0)] = append(assignAt[c.baseOf(arg, 0)], ci.(ssa.Instruction).Block())
 			}
 		}
 	}
@@ -557,6 +585,7 @@ func (c *Ctx) accumulatorOK(fn *ssa.Function, acc ssa.Value, store *ssa.Call) (b
 				return
 			}
 			if b := c.baseOf(a, 0); assigned[b] && strings.Contains(c.accessPath(a, 0), "Tsize") {
+				addAt[b] = x.Block()
 				return
 			}
 			bad = fmt.Sprintf("addend at %s is not a size written into a link of this block", c.P.Pos(x.Pos()))
@@ -567,6 +596,59 @@ func (c *Ctx) accumulatorOK(fn *ssa.Function, acc ssa.Value, store *ssa.Call) (b
 	walk(phi)
 	if bad != "" {
 		return false, bad
+	}
+	// pairing per iteration: an existing link's Tsize is added in exactly the iterations in which that link is assigned into
+	// the block (an entry that is skipped must not be counted, a counted entry must not be skipped)
+	if hdr := phi.Block(); hdr != nil {
+		body := map[*ssa.BasicBlock]bool{}
+		for _, b := range fn.Blocks {
+			if hdr.Dominates(b) && (b == hdr || blockReaches(b, hdr)) {
+				body[b] = true
+			}
+		}
+		cycleAvoiding := func(through, avoid *ssa.BasicBlock) bool {
+			// is there a cycle hdr -> … -> through -> … -> hdr inside the body that never enters avoid?
+			reach := func(from, to *ssa.BasicBlock) bool {
+				seen := map[*ssa.BasicBlock]bool{}
+				stack := append([]*ssa.BasicBlock{}, from.Succs...)
+				if from == to {
+					return true
+				}
+				for len(stack) > 0 {
+					x := stack[len(stack)-1]
+					stack = stack[:len(stack)-1]
+					if x == avoid || seen[x] || !body[x] {
+						continue
+					}
+					if x == to {
+						return true
+					}
+					if x == hdr {
+						continue
+					}
+					seen[x] = true
+					stack = append(stack, x.Succs...)
+				}
+				return false
+			}
+			if through == avoid || !body[through] {
+				return false
+			}
+			return reach(hdr, through) && reach(through, hdr)
+		}
+		for b, ab := range addAt {
+			for _, nb := range assignAt[b] {
+				if ab == nb {
+					continue
+				}
+				if cycleAvoiding(ab, nb) {
+					return false, "an entry's Tsize is added to the total in an iteration that does not place the entry into the block (a skipped entry is still counted)"
+				}
+				if cycleAvoiding(nb, ab) {
+					return false, "an entry is placed into the block in an iteration that does not add its Tsize to the total"
+				}
+			}
+		}
 	}
 	// completeness: every size written into a link of this block is among the addends
 	for ls := range linkSizes {
@@ -699,11 +781,14 @@ func (c *Ctx) checkFileMeta() {
 			packed := false
 			for _, ci := range core.CallsIn(fn) {
 				pc, ok := ci.(*ssa.Call)
-				if !ok || pc.Call.StaticCallee() == nil || !c.packerUsesAnyField(pc.Call.StaticCallee()) {
+				if !ok || pc.Call.StaticCallee() == nil {
 					continue
 				}
-				for _, a := range pc.Call.Args {
-					if c.varPath(a, 0) == cv1 {
+				for k, a := range pc.Call.Args {
+					if c.varPath(a, 0) != cv1 {
+						continue
+					}
+					if c.packerUsesAnyField(pc.Call.StaticCallee()) || c.packStoreHelper(pc.Call.StaticCallee(), k, 0) != nil {
 						packed = true
 					}
 				}
@@ -919,4 +1004,102 @@ func resolveLocal(v ssa.Value) ssa.Value {
 		v = stored
 	}
 	return v
+}
+
+// packStoreHelper: repository function S hands its k-th parameter to a packer (a function that builds one link per element
+// with an entry constructor) and stores the packed node; returns the packer.
+func (c *Ctx) packStoreHelper(S *ssa.Function, k int, depth int) *ssa.Function {
+	if S == nil || len(S.Blocks) == 0 || k >= len(S.Params) || depth > 2 {
+		return nil
+	}
+	if _, isRepo := c.P.PkgOf(S); !isRepo {
+		return nil
+	}
+	storers := c.G.ReachersOf(c.G.Storers(core.BuilderPkgs))
+	for _, ci := range core.CallsIn(S) {
+		pc, ok := ci.(*ssa.Call)
+		if !ok || pc.Call.StaticCallee() == nil {
+			continue
+		}
+		for j, a := range pc.Call.Args {
+			if a != ssa.Value(S.Params[k]) {
+				continue
+			}
+			if c.packerUsesAnyField(pc.Call.StaticCallee()) {
+				node := extractOf(pc, 0)
+				if node == nil {
+					node = pc
+				}
+				for _, ci2 := range core.CallsIn(S) {
+					st, ok := ci2.(*ssa.Call)
+					if !ok || st == pc || st.Call.StaticCallee() == nil || !storers[st.Call.StaticCallee()] {
+						continue
+					}
+					for _, sa := range st.Call.Args {
+						if sa == node {
+							return pc.Call.StaticCallee()
+						}
+					}
+				}
+			}
+			if pk := c.packStoreHelper(pc.Call.StaticCallee(), j, depth+1); pk != nil {
+				return pk
+			}
+		}
+	}
+	return nil
+}
+
+// linkSizeHelper: h returns a dag-pb link (result li) and an integer (result si) such that on every return that may carry a
+// nil error the link was built by an entry constructor whose size argument is that very integer.
+func (c *Ctx) linkSizeHelper(h *ssa.Function) (li, si int, ok bool) {
+	if h == nil || len(h.Blocks) == 0 {
+		return 0, 0, false
+	}
+	if rel, isRepo := c.P.PkgOf(h); !isRepo || !core.BuilderPkgs[rel] {
+		return 0, 0, false
+	}
+	res := h.Signature.Results()
+	li, si = -1, -1
+	for i := 0; i < res.Len(); i++ {
+		ts := types.TypeString(res.At(i).Type(), nil)
+		if li < 0 && strings.Contains(ts, "PBLink") && !strings.Contains(ts, "PBLinks") {
+			li = i
+		} else if si < 0 && isIntegerType(res.At(i).Type()) {
+			si = i
+		}
+	}
+	errIdx := core.ErrResultIndex(h.Signature)
+	if li < 0 || si < 0 {
+		return 0, 0, false
+	}
+	n := 0
+	for _, ret := range core.Returns(h) {
+		rr := core.ResolvedResults(ret)
+		if errIdx >= 0 && (core.ErrKnownNonNil(rr[errIdx], nil) || core.GuardedBy(ret.Block(), func(cond ssa.Value) (bool, bool) {
+			x, trueMeansNil, isNil := core.NilCmp(cond)
+			if !isNil || x != rr[errIdx] {
+				return false, false
+			}
+			return !trueMeansNil, true
+		})) {
+			continue
+		}
+		if core.IsNilConst(rr[li]) {
+			continue
+		}
+		ex, isEx := rr[li].(*ssa.Extract)
+		if !isEx {
+			return 0, 0, false
+		}
+		ctor, isCall := ex.Tuple.(*ssa.Call)
+		if !isCall || !isEntryCtor(ctor.Call.StaticCallee()) {
+			return 0, 0, false
+		}
+		if core.Unconv(ctor.Call.Args[1]) != core.Unconv(rr[si]) {
+			return 0, 0, false
+		}
+		n++
+	}
+	return li, si, n > 0
 }
